@@ -29,4 +29,13 @@ def fourClasses : DD Rat :=
   { n := 4, dist := [(1/2, 1/4), (3/2, 1/4), (5/2, 1/4), (7/2, 1/4)], bounds := [1, 2, 3],
     dom := ⟨0, 4, true, true, 0⟩, median := false, scheme := 1, prec := 1/1000000 }
 
+/-- a gamma with the offset parameter (offset 1/2) whose domain has been restricted to `[1,2]` -/
+def gammaRestricted : FamSt Rat :=
+  { fam := .gamma, dd := { n := 3, dist := [], bounds := [], dom := ⟨1, 2, true, true, 0⟩, median := false, scheme := 1, prec := 1/1000 },
+    p1 := 2, p2 := 2, p3 := 1/2, hasOffset := true, tpTied := false }
+
+/-- 3 classes on the uniform parent, domain `[1/2, 1/2 + 10⁻¹³]`, precision `10⁻¹²` -/
+def narrowState : DD Rat :=
+  { n := 3, dist := [], bounds := [], dom := ⟨1/2, 1/2 + 1/10000000000000, true, true, 0⟩, median := false, scheme := 1, prec := 1/1000000000000 }
+
 end Bpp.Discretize.Witness
